@@ -730,6 +730,22 @@ def conststructconn_stream(sh, backend, n, mech_fn):
     else: sh.count("const_struct_connection_designs_cosimulated"); sh.count("conststructconn:" + how)
 
 
+def structtmp_stream(sh, backend, n, mech_fn):
+  """a struct-typed TEMPORARY whose field is read ( t = s.q; .. t.y .. ), alone in a small design (in the constuse designs the
+  statement shares its block with constant selects that one back end refuses, which hid a re-introduced F-Y9)"""
+  for case in range(n):
+    rng = sh.rng("structtmp", case)
+    A, B = rng.choice([(4, 4), (8, 8), (3, 5), (1, 7)])
+    stt = rng.choice([["t = s.q", "s.o5 @= t.y"], ["t = s.q", f"s.o5 @= t.y + {rng.randrange(1, 1 << B)}"], ["t = s.q", "u = t", "s.o5 @= u.y ^ s.q.y"], ["s.o5 @= s.q.y"]])
+    src = "\n".join(["from pymtl3 import *", "@bitstruct", "class STQ:", f"  x: mk_bits({A})", f"  y: mk_bits({B})", "class STTop(Component):", "  def construct(s):",
+                     f"    s.q = InPort(STQ); s.o5 = OutPort({B}); s.o6 = OutPort({A})", "    @update", "    def up():"] + ["      " + b for b in stt] + ["      s.o6 @= s.q.x"]) + "\n"
+    before = sh.counters.get("rejected_by_translator", 0)
+    directed(sh, backend, f"structtmp-{case}", src, "STTop", mech_fn)
+    if sh.counters.get("rejected_by_translator", 0) > before: sh.count("struct_temporary_designs_refused")
+    else: sh.count("struct_temporary_designs_cosimulated")
+    sh.count("struct_temporary_designs")
+
+
 def localname_stream(sh, backend, n, mech_fn):
   for case in range(n):
     rng = sh.rng("localname", case)
